@@ -21,6 +21,13 @@ _PATCHED = {}
 _ACTIVE: List["Session"] = []
 
 
+class BudgetExceeded(BaseException):
+    """The fixture universe of a session turned out larger than the harness is willing to explore (never a verdict)."""
+
+
+MAX_PACKETS = 3000
+
+
 class Clock:
     """Stands in for the `time` module inside comb_spec_searcher.comb_spec_searcher."""
 
@@ -231,6 +238,8 @@ class Session:
 
     # ---- hooks --------------------------------------------------------------------------
     def on_packet(self, label, strategies, inferral):
+        if len(self.packets) > MAX_PACKETS:
+            raise BudgetExceeded()
         self.clock.now += 1.0
         rec = {"l": int(label), "inf": bool(inferral), "s": [strat_id(s) for s in strategies]}
         q_rec = getattr(self, "q_rec", None)
@@ -339,6 +348,8 @@ class Session:
                 return "none", None
             except ExceededMaxtimeError:
                 return "timeout", None
+            except BudgetExceeded:
+                return "budget", None
             except Exception as e:  # recorded by the caller as an outcome, not a machinery failure
                 return "error", e
         finally:
